@@ -197,7 +197,11 @@ impl Mac {
         let (mut tx_config, tx_channel) =
             self.region.create_tx_config(rng, self.configuration.data_rate, &Frame::Data);
         tx_config.adjust_power(
-            self.configuration.tx_power.unwrap_or(self.board_eirp.max_power),
+            // the level commanded by the network never lifts the board's own limit
+            self.configuration
+                .tx_power
+                .unwrap_or(self.board_eirp.max_power)
+                .min(self.board_eirp.max_power),
             self.board_eirp.antenna_gain,
         );
         Ok((tx_config, self.rx_windows(&tx_channel), fcnt))
@@ -227,7 +231,10 @@ impl Mac {
                 let (mut tx_config, _) =
                     self.region.create_tx_config(rng, self.configuration.data_rate, &Frame::Data);
                 tx_config.adjust_power(
-                    self.configuration.tx_power.unwrap_or(self.board_eirp.max_power),
+                    self.configuration
+                        .tx_power
+                        .unwrap_or(self.board_eirp.max_power)
+                        .min(self.board_eirp.max_power),
                     self.board_eirp.antenna_gain,
                 );
                 (tx_config, fcnt_up)
